@@ -875,7 +875,6 @@ func runScenario(c *vlib.Ctx, sc scenario, r *vlib.Rand, label string) {
 	fmt.Fprintf(&sb, "|%s|%v", sc.kind, sc.schedule)
 	c.DistinctStr(sb.String())
 	if sc.senders > 1 {
-		c.DistinctStr("ilv:" + sb.String())
 		c.Count("multi_sender_scenarios", 1)
 	}
 	if c.WantSample() {
